@@ -8,7 +8,7 @@ Spec (all JSON):
   cond    : condition tree or None
   select  : list of terms ; mode: entity|set_of
 
-Terms : ["var",n] ["attr",t,name] ["idx",t,key] ["call",t,meth,[args]] ["lit",v] ["fn","sum_ab",{kw:term}]
+Terms : ["var",n] ["attr",t,name] ["idx",t,key|term] ["call",t,meth,[args|terms]] ["lit",v] ["fn","sum_ab",{kw:term}]
 Conds : ["cmp",op,t,t] ["in",item,container] ["contains",container,item] ["truth",t]
         ["pred",Name,[t..]] ["hastype",t,"Q"] ["and",c,c] ["or",c,c] ["not",c]
         ["exists",varname,c] ["forall",varname,c]
@@ -57,8 +57,10 @@ def term_vars(t):
     k = t[0]
     if k == "var":
         return {t[1]}
-    if k in ("attr", "idx"):
+    if k == "attr":
         return term_vars(t[1])
+    if k == "idx":
+        return term_vars(t[1]) | (term_vars(t[2]) if isinstance(t[2], list) else set())
     if k == "call":
         s = term_vars(t[1])
         for a in t[3]:
@@ -139,8 +141,10 @@ def term_has_fn(t):
     k = t[0]
     if k == "fn":
         return True
-    if k in ("attr", "idx"):
+    if k == "attr":
         return term_has_fn(t[1])
+    if k == "idx":
+        return term_has_fn(t[1]) or (isinstance(t[2], list) and term_has_fn(t[2]))
     if k == "call":
         return term_has_fn(t[1]) or any(isinstance(a, list) and term_has_fn(a) for a in t[3])
     return False
@@ -215,9 +219,9 @@ def skeleton(spec):
         if k == "attr":
             return sk_t(t[1]) + "." + t[2]
         if k == "idx":
-            return sk_t(t[1]) + "[]"
+            return sk_t(t[1]) + ("[" + sk_t(t[2]) + "]" if isinstance(t[2], list) else "[]")
         if k == "call":
-            return sk_t(t[1]) + "." + t[2] + "()"
+            return sk_t(t[1]) + "." + t[2] + "(" + ",".join(sk_t(a) for a in t[3] if isinstance(a, list)) + ")"
         if k == "lit":
             return "#"
         if k == "fn":
@@ -291,7 +295,7 @@ def build(spec, m, objs=None, domain_factory=None):
         if k == "attr":
             return getattr(bt(t[1]), t[2])
         if k == "idx":
-            return bt(t[1])[t[2]]
+            return bt(t[1])[bt(t[2]) if isinstance(t[2], list) else t[2]]
         if k == "call":
             return getattr(bt(t[1]), t[2])(*[bt(a) if isinstance(a, list) else a for a in t[3]])
         if k == "lit":
@@ -438,7 +442,7 @@ def oracle(spec, m, objs=None, mode="total", unknown_vars=()):
         if k == "attr":
             return getattr(et(t[1], A), t[2])
         if k == "idx":
-            return et(t[1], A)[t[2]]
+            return et(t[1], A)[et(t[2], A) if isinstance(t[2], list) else t[2]]
         if k == "call":
             return getattr(et(t[1], A), t[2])(*[et(a, A) if isinstance(a, list) else a for a in t[3]])
         if k == "lit":
